@@ -19,6 +19,8 @@ CHECKS = {
          "deterministic simulation: metadata relocation model over seeded header sets"),
  "C09": ("fault_enumeration", "Single faults are enumerated on a corpus of small scenarios covering every adapter path: every request cut offset (clean and error), every response cut offset, every flag byte value, every single-bit flip of compressed payloads, frame-length and Content-Length mis-statements; an independent strict parser decides malformedness; thorough is the complete enumeration, quick a seeded sample.",
          "deterministic simulation: exhaustive single-fault enumeration (crash points on both streams) with a reference stream parser as oracle"),
+ "C10": ("exploration", "Limits from 16 B to 1 MiB with one message placed around L in each representation (wire, decompressed, re-encoded; ratios to about 1000:1 through real gzip/zlib), both directions, every adapter path; outcome rule (all fit => never resource_exhausted; exceed => resource_exhausted or streamed intact) plus deterministic buffer-growth and decompressor-output accounting through the buffer-pool hook and decompressor wrappers against the bound 8L+64KiB.",
+         "deterministic simulation: size-boundary workloads with deterministic buffer/decompression accounting at the seams"),
  "C11": ("exploration", "Hostile raw client requests, protocol-breaking scripted backends and transport faults (cuts, client gone, cancellation, handler panics, I/O after return) are drawn per run; no panic may escape ServeHTTP, the world must reach quiescence with all tasks finished, and the response-writer contract model must see one head and a consistent body.",
          "deterministic simulation with fault injection: seeded hostile workloads, quiescence-based termination and response-writer contract monitors"),
  "C13": ("exploration", "Requests that need no conversion or match no endpoint are generated with arbitrary headers, query strings, declared lengths and protocol-invalid bodies under all segmentations and body faults; field-by-field and byte-by-byte identity is checked at the downstream handler and at the client, including flush pass-through.",
